@@ -988,5 +988,26 @@ def nontrivial(case, out):
     return good and bad
 
 
+# ---------------------------------------------------------------- manager-level histories (engine: extra_cases)
+# The c10 area reduces PeerState to Disconnected/Opening/Dialing. "Dial successes and failures re-score exactly the
+# address used" must hold in EVERY state the manager can be in when the outcome arrives (Connected with the dial parked
+# as secondary record — the simultaneous-dial race —, Disconnected with a dial record, Opening superseded by an inbound
+# connection, ...): those histories run in the c05 area (the real TransportManager behind a scripted transport, model
+# Model/Manager/Dial.lean) with `scores <p>` around every outcome, judged by `mgr_common.oracle_scores`.
+def extra_cases(rng, tier):
+    from . import mgr_common
+    yield "C05", list(mgr_common.gen_score_cases(rng, tier))
+
+
+def oracle_extra(xpid, case, out):
+    from . import mgr_common
+    return [dict(v, msg="(real TransportManager, c05 area) " + v["msg"]) for v in mgr_common.oracle_scores(case, out)]
+
+
+def stats_extra(xpid, case, out, acc):
+    from . import mgr_common
+    mgr_common.stats_scores(case, out, acc)
+
+
 def matches_known(k, v):
     return False
